@@ -113,7 +113,7 @@ def run(ck):
         c = consts(bound, maxhist=hist)
         cfg = vlib.cfg_with(sw, "SlotSeqImpl_sim.cfg", c)
         r = vlib.tlc(sw, "SlotSeqImpl", cfg, env=HEAP, workers=1 if quick else 4, simulate=num, depth=3 * hist,
-                     seed=ck.seed * 1000 + k, timeout=1800)
+                     seed=ck.seed * 1000 + k, timeout=2700)
         if r.violated or r.error:
             raise vlib.Inconclusive("SlotSeqImpl simulation %s: %s\n%s" % (bound, r.violated or r.error, r.tail()))
         ck.add_tlc("SlotSeqImpl random simulation", r, c, exhaustive=False)
@@ -132,8 +132,8 @@ def run(ck):
                 (sim, (4, "seq-r3", 300, 80))]
     else:
         jobs = [(strict, ("seq-d",)), (cover, ("seq-m",)), (cover, ("seq-b",)), (cover, ("off-s",)), (cover, ("offn-s",)),
-                (sim, (1, "seq-r", 30000, 100)), (sim, (2, "seq-r2", 20000, 200, 50)), (sim, (3, "off-r", 20000, 100)),
-                (sim, (4, "seq-r3", 20000, 100)), (sim, (5, "seq-d", 20000, 60, 7))]
+                (sim, (1, "seq-r", 10000, 100)), (sim, (2, "seq-r2", 6000, 200, 50)), (sim, (3, "off-r", 6000, 100)),
+                (sim, (4, "seq-r3", 6000, 100)), (sim, (5, "seq-d", 6000, 60, 7))]
     with ThreadPoolExecutor(max_workers=3 if quick else 4) as ex:
         futs = [ex.submit(f, *a) for f, a in jobs]
         for f in futs:
